@@ -527,6 +527,15 @@ func (l *ledgerRun) nodeLedger(i int, n *Node) {
 		signer := types.MakeSigner(u.Cfg, b.Number())
 		receipts := n.BC.GetReceiptsByHash(b.Hash())
 		if len(receipts) != len(b.Transactions()) {
+			if len(receipts) == 0 && c.sharedRoot(id) {
+				// The block was adopted unexecuted because a sibling had
+				// already produced its state root (the finding recorded under
+				// C01/C03).  Charging is a statement about executed
+				// transactions; without receipts the per-transaction gas is
+				// not observable, so the fold stops here for this node.
+				l.col.Inc("probe_ledger_stopped_at_unexecuted_adoption")
+				return
+			}
 			c.add("canonical-receipts-missing", i, "block id %d has %d receipts for %d transactions", id, len(receipts), len(b.Transactions()))
 			return
 		}
